@@ -199,23 +199,29 @@ func (sp SinePacer) Pace(elapsedTime time.Duration, elapsedHits uint64) (time.Du
 	}
 	// Re-arranging our hits equation to provide a duration given the number of
 	// requests sent is non-trivial, so we must solve for the duration numerically.
-	// math.Round() added here because we have to coerce to int64 nanoseconds
-	// at some point and it corrects a bunch of off-by-one problems.
-	nsPerHit := math.Round(1 / sp.hitsPerNs(elapsedTime))
-	hitsToWait := float64(elapsedHits+1) - expectedHits
-	nextHitIn := time.Duration(nsPerHit * hitsToWait)
-
-	// If we can't converge to an error of <1e-3 within 5 iterations, bail.
-	// This rarely even loops for any large Period if hitsToWait is small.
-	for i := 0; i < 5; i++ {
-		hitsAtGuess := sp.hits(elapsedTime + nextHitIn)
-		err := float64(elapsedHits+1) - hitsAtGuess
-		if math.Abs(err) < 1e-3 {
-			return nextHitIn, false
-		}
-		nextHitIn = time.Duration(float64(nextHitIn) / (hitsAtGuess - float64(elapsedHits)))
+	// Because Amp < Mean the rate is always positive and hits() grows
+	// monotonically, so the instant at which it reaches elapsedHits+1 lies
+	// within hitsToWait / (Mean - Amp) and can be bisected to the nanosecond.
+	// (A fixed number of proportional corrections of a first guess, as used
+	// before, over- and undershoots when the rate changes within one hit
+	// interval, e.g. with Amp close to Mean.)
+	target := float64(elapsedHits + 1)
+	minRate := sp.Mean.hitsPerNs() - math.Abs(sp.Amp.hitsPerNs())
+	bound := math.Ceil((target-expectedHits)/minRate) + 1
+	if minRate <= 0 || !(bound < float64(math.MaxInt64-elapsedTime)) {
+		// We would overflow the wait if we continued, so stop the attack.
+		return 0, true
 	}
-	return nextHitIn, false
+	lo, hi := time.Duration(0), time.Duration(bound)
+	for lo < hi {
+		mid := lo + (hi-lo)/2
+		if sp.hits(elapsedTime+mid) >= target {
+			hi = mid
+		} else {
+			lo = mid + 1
+		}
+	}
+	return lo, false
 }
 
 // Rate returns a SinePacer's instantaneous hit rate (i.e. requests per second)
